@@ -13,6 +13,8 @@ import (
 	"os"
 	"sort"
 	"strings"
+	"sync"
+	"sync/atomic"
 	"time"
 )
 
@@ -60,6 +62,13 @@ type Result struct {
 // Run is the context handed to a check.
 type Run struct {
 	journal string
+	// progress / current case, for the stall watchdog
+	progress  atomic.Int64
+	curMu     sync.Mutex
+	curCheck  string
+	curInput  any
+	curChoice []int
+	outPath   string
 	Result
 	known    map[string]bool
 	states   map[uint64]struct{}
@@ -90,7 +99,71 @@ func (r *Run) Mine(idx int) bool {
 }
 
 // Eval counts one execution of the implementation compared with the oracle.
-func (r *Run) Eval() { r.Evaluations++; r.Traces++ }
+func (r *Run) Eval() { r.Evaluations++; r.Traces++; r.progress.Add(1) }
+
+// Begin names the case about to be executed. If the implementation then does not return (the worker makes
+// no progress for StallSeconds), the watchdog reports exactly this case as a violation: "evaluation
+// terminates" is part of every property that speaks about results.
+func (r *Run) Begin(check string, input any) {
+	r.curMu.Lock()
+	r.curCheck, r.curInput, r.curChoice = check, input, nil
+	r.curMu.Unlock()
+	r.progress.Add(1)
+}
+
+// BeginChoices is Begin with the forced choice vector of the execution.
+func (r *Run) BeginChoices(check string, input any, choices []int) {
+	r.curMu.Lock()
+	r.curCheck, r.curInput, r.curChoice = check, input, choices
+	r.curMu.Unlock()
+	r.progress.Add(1)
+}
+
+// StallSeconds is how long a worker may go without finishing any execution before the watchdog fires.
+var StallSeconds = 90
+
+func (r *Run) watchdog(replay bool) {
+	last := r.progress.Load()
+	idle := 0
+	for {
+		time.Sleep(3 * time.Second)
+		cur := r.progress.Load()
+		if cur != last {
+			last, idle = cur, 0
+			continue
+		}
+		idle += 3
+		if idle < StallSeconds {
+			continue
+		}
+		r.curMu.Lock()
+		check, input, choices := r.curCheck, r.curInput, r.curChoice
+		r.curMu.Unlock()
+		if input == nil {
+			continue // not inside a named case: the harness itself is busy (enumeration, sorting)
+		}
+		raw, _ := json.Marshal(input)
+		v := Violation{Property: r.Property, Check: check + "/termination", Input: raw, Choices: choices,
+			Observed: fmt.Sprintf("no return within %d s", StallSeconds), Expected: "the evaluation returns a result or an error",
+			Explanation: "the implementation did not return from this case (infinite loop or deadlock)"}
+		if replay {
+			fmt.Println("REPLAY: violation reproduced")
+			enc := json.NewEncoder(os.Stdout)
+			enc.SetIndent("", " ")
+			_ = enc.Encode(v)
+			os.Exit(1)
+		}
+		r.NViolations++
+		r.Violations = append(r.Violations, v)
+		r.Exhaustive = false
+		r.Caps = append(r.Caps, "worker stopped: an evaluation did not return")
+		r.WallS = time.Since(r.start).Seconds()
+		if data, err := json.Marshal(&r.Result); err == nil && r.outPath != "" {
+			_ = os.WriteFile(r.outPath, data, 0o644)
+		}
+		os.Exit(1)
+	}
+}
 
 // Step counts n explored choice points / transitions.
 func (r *Run) Step(n int) { r.Transitions += int64(n) }
@@ -262,6 +335,7 @@ func MainArgs(args []string, checks map[string]Check) {
 		}
 		r.Property = v.Property
 		r.known = map[string]bool{} // a replay never hides behind the known list
+		go r.watchdog(true)
 		got := c.Replay(r, v)
 		enc := json.NewEncoder(os.Stdout)
 		enc.SetIndent("", " ")
@@ -283,7 +357,9 @@ func MainArgs(args []string, checks map[string]Check) {
 	if *out != "" {
 		r.journal = *out + ".journal"
 		_ = os.Remove(r.journal)
+		r.outPath = *out
 	}
+	go r.watchdog(false)
 	code := 0
 	func() {
 		defer func() {
